@@ -4,6 +4,7 @@ import itertools
 import logging
 import os
 import pickle
+import uuid
 from enum import IntEnum
 from typing import Dict
 
@@ -228,7 +229,11 @@ def save_model(
 
     # Output metadata
     db_file = os.path.join(model_folder, model_name + ".pymoca_cache")
-    with open(db_file, "wb") as f:
+
+    # Write to a temporary file and move it into place when it is complete, so
+    # that an interrupted or concurrent write never leaves a partial cache file.
+    tmp_file = "{}.{}.tmp".format(db_file, uuid.uuid4().hex[:12])
+    with open(tmp_file, "wb") as f:
         db = {}
 
         # Store version
@@ -304,7 +309,15 @@ def save_model(
 
         db["alias_relation"] = model.alias_relation
 
-        pickle.dump(db, f, protocol=-1)
+        try:
+            pickle.dump(db, f, protocol=-1)
+        except BaseException:
+            f.close()
+            with contextlib.suppress(OSError):
+                os.remove(tmp_file)
+            raise
+
+    os.replace(tmp_file, db_file)
 
 
 def load_model(model_folder: str, model_name: str, compiler_options: Dict[str, str]) -> CachedModel:
@@ -344,6 +357,12 @@ def load_model(model_folder: str, model_name: str, compiler_options: Dict[str, s
                 raise InvalidCacheError("Cache generated for incompatible CasADi version")
             else:
                 raise
+        except Exception as e:
+            # Truncated, empty or otherwise damaged cache file
+            raise InvalidCacheError("Cache file cannot be read ({})".format(type(e).__name__))
+
+        if not isinstance(db, dict) or "version" not in db:
+            raise InvalidCacheError("Cache file has unexpected contents")
 
         if db["version"] != __version__:
             raise InvalidCacheError("Cache generated for a different version of pymoca")
